@@ -295,6 +295,12 @@ pub fn run(tape: &mut Tape, props: Props, thorough: bool, trace_on: bool) -> Out
         let bound = v4.map(IpAddr::V4).unwrap_or(IpAddr::V6(v6addr));
         u2.bind(IpListenEndpoint { addr: Some(to_smol(&bound)), port: 7001 }).unwrap();
         socks.push(Sk::Udp(node.sockets.add(u2), 7001, Some(bound)));
+        // a socket that was never bound and one that was closed again: port 0 in this model, nothing may reach them
+        socks.push(Sk::Udp(node.sockets.add(mk()), 0, None));
+        let mut u4 = mk();
+        u4.bind(7002).unwrap();
+        u4.close();
+        socks.push(Sk::Udp(node.sockets.add(u4), 0, None));
     }
     let mut ic = icmp::Socket::new(icmp::PacketBuffer::new(vec![icmp::PacketMetadata::EMPTY; 4], vec![0u8; 512]), icmp::PacketBuffer::new(vec![icmp::PacketMetadata::EMPTY; 2], vec![0u8; 256]));
     ic.bind(icmp::Endpoint::Ident(0x2222)).unwrap();
@@ -384,9 +390,12 @@ fn body(c: &mut Inj, thorough: bool) -> Result<(), Violation> {
         let src = c.src_addr(sc, v6);
         // ---- protocol and port relation
         let proto = if forced.is_some() { 2 } else { c.tape.draw(8) };
+        let mut udp_dport: Option<u16> = None;
         let (l4p, l4, is_err, is_rst, what): (u8, Vec<u8>, bool, bool, &'static str) = match proto {
             0 | 1 => {
-                let dport = *c.tape.pick(&[7000u16, 7001, 9999, 53, 7000]);
+                // (7002: the port the closed socket used to have; 0: what an unbound socket's endpoint reads)
+                let dport = *c.tape.pick(&[7000u16, 7001, 9999, 53, 7000, 0, 7002]);
+                udp_dport = Some(dport);
                 (P_UDP, enc_udp(&src, &dst, 4000, dport, b"injected datagram"), false, false, "udp")
             }
             2 | 3 => {
@@ -432,7 +441,28 @@ fn body(c: &mut Inj, thorough: bool) -> Result<(), Violation> {
         if thin && !c.tape.chance(1, 12) {
             continue;
         }
-        let ip = enc_ip(&src, &dst, l4p, 64, &l4);
+        // IPv6: sometimes a hop-by-hop options header with one unknown option in front of the payload. The two
+        // high-order bits of the option type say what a node that does not know it does (RFC 8200 4.2): 00 skip,
+        // 01 discard silently, 11 discard and report unless the destination is multicast, 10 discard and report
+        // even then - the one reply to multicast the RFCs demand, so that type goes to unicast destinations only.
+        let mut hbh: Option<u8> = None;
+        if v6 && forced.is_none() && c.tape.draw(6) == 0 {
+            let mut t = *c.tape.pick(&[0xdeu8, 0x1e, 0x5e, 0x9e, 0xc2, 0xff]);
+            if t & 0xc0 == 0x80 && dst.is_multicast() {
+                t = 0xde;
+            }
+            hbh = Some(t);
+        }
+        let (l4p_ip, l4_ip) = match hbh {
+            Some(t) => {
+                let mut b = vec![l4p, 0, t, 4, 0, 0, 0, 0];
+                b.extend_from_slice(&l4);
+                c.stats.inc("inj.hop-by-hop-unknown-option");
+                (P_HBH, b)
+            }
+            None => (l4p, l4.clone()),
+        };
+        let ip = enc_ip(&src, &dst, l4p_ip, 64, &l4_ip);
         let frame = c.wrap(ip, l2);
         c.stats.inc("inj.packets");
         // ---- independent verdicts
@@ -464,7 +494,11 @@ fn body(c: &mut Inj, thorough: bool) -> Result<(), Violation> {
         if !for_us {
             c.stats.inc("inj.not-for-us");
         }
-        let summary = format!("{} {}>{} l2={:?} dst={:?} src={:?}", what, src, dst, l2, dc, sc);
+        let hbh_tag = match hbh {
+            Some(t) => format!("+hbh-option-{:02x}", t & 0xc0),
+            None => String::new(),
+        };
+        let summary = format!("{}{} {}>{} l2={:?} dst={:?} src={:?}", what, hbh_tag, src, dst, l2, dc, sc);
         c.log(|| format!("INJ {}", summary));
         let (tcp_before, all_before) = c.snapshot();
         let bl_before = c.bound_listener.map(|(h, _)| crate::scen_tcp::strip_storage(&format!("{:?}", c.node.sockets.get::<tcp::Socket>(h))));
@@ -508,15 +542,18 @@ fn body(c: &mut Inj, thorough: bool) -> Result<(), Violation> {
                         return Err(viol("C11", "no-error-to-nonunicast", "C11.reply/icmpv6-param-problem-unrecognized-next-header-to-multicast", format!("ICMPv6 Parameter Problem (unrecognized next header) sent in answer to a packet with a multicast destination: {} ; reply: {}", summary, p.summary())));
                     }
                     let why = if dst_nonunicast { format!("dst={:?}", dc) } else { format!("src={:?}", sc) };
-                    return Err(viol("C11", "no-error-to-nonunicast", format!("C11.reply/{}/{}/{}", k, what, why), format!("{} sent in answer to a packet with a non-unicast {}: {} ; reply: {}", k, if dst_nonunicast { "destination" } else { "source" }, summary, p.summary())));
+                    return Err(viol("C11", "no-error-to-nonunicast", format!("C11.reply/{}/{}{}/{}", k, what, hbh_tag, why), format!("{} sent in answer to a packet with a non-unicast {}: {} ; reply: {}", k, if dst_nonunicast { "destination" } else { "source" }, summary, p.summary())));
                 }
             }
         }
         // 3. never answer an error or a reset with an error or a reset
-        if is_err || is_rst {
+        // (a reset behind an unknown hop-by-hop option is never looked at: the Parameter Problem answers the
+        // option, as RFC 8200 demands, not the segment. An ICMPv6 error behind one must still not be answered:
+        // RFC 4443 2.4 (e.1).)
+        if is_err || (is_rst && hbh.is_none()) {
             for p in &out {
                 if let Some(k) = kind_of(p) {
-                    return Err(viol("C11", "no-error-for-error", format!("C11.error-for-error/{}/{}", k, what), format!("{} sent in answer to {}: {} ; reply: {}", k, if is_err { "an ICMP error" } else { "a TCP RST" }, summary, p.summary())));
+                    return Err(viol("C11", "no-error-for-error", format!("C11.error-for-error/{}/{}{}", k, what, hbh_tag), format!("{} sent in answer to {}: {} ; reply: {}", k, if is_err { "an ICMP error" } else { "a TCP RST" }, summary, p.summary())));
                 }
             }
         }
@@ -542,6 +579,12 @@ fn body(c: &mut Inj, thorough: bool) -> Result<(), Violation> {
                 let s = c.node.sockets.get_mut::<udp::Socket>(h);
                 while let Ok((_data, meta)) = s.recv() {
                     c.stats.inc("inj.udp-delivered");
+                    if port == 0 {
+                        return Err(viol("C11", "endpoint-match", "C11.endpoint/udp-socket-without-endpoint-received", format!("a UDP socket that is not bound (never bound, or closed) received a datagram: {}", summary)));
+                    }
+                    if udp_dport != Some(port) {
+                        return Err(viol("C11", "endpoint-match", "C11.endpoint/udp-wrong-port", format!("UDP socket bound to port {} received a datagram although the packet delivered was: {}", port, summary)));
+                    }
                     let la = meta.local_address.map(|a| from_smol(&a));
                     if let (Some(b), Some(la)) = (bound, la) {
                         let la_nonunicast = la.is_multicast() || la.is_limited_broadcast() || la == IpAddr::V4([10, 0, 0, 255]) || la == IpAddr::V4([172, 16, 255, 255]);
